@@ -754,17 +754,22 @@ func toDecimal64(val interface{}) (float64, error) {
 	case uint16:
 		return float64(x), nil
 	case int:
-		return float64(x), nil
+		return toDecimal64(int64(x))
 	case uint:
-		return float64(x), nil
+		return toDecimal64(uint64(x))
 	case int32:
 		return float64(x), nil
 	case uint32:
 		return float64(x), nil
 	case uint64:
-		return float64(x), nil
+		// float64 has a 53 bit mantissa: only accept what it holds exactly
+		if f := float64(x); f < 18446744073709551616.0 && uint64(f) == x {
+			return f, nil
+		}
 	case int64:
-		return float64(x), nil
+		if f := float64(x); f < 9223372036854775808.0 && int64(f) == x {
+			return f, nil
+		}
 	case float32:
 		return float64(x), nil
 	case float64:
